@@ -206,8 +206,14 @@ class ConvexPolygon(Polygon):
         angles = np.mod(angles, 2 * np.pi)
         num_verts = len(self.vertices)
 
-        # Rearrange the verts so that we start with the lowest angle
-        verts, _ = _align_points_by_normal(self.normal, self.vertices - center)
+        # Rearrange the verts so that we start with the lowest angle. The angles are
+        # measured in the plane of the polygon seen from the +z side, whichever way
+        # the normal points: a polygon in the xy plane that was listed clockwise
+        # (normal -z) is the same set of points as its counterclockwise listing.
+        normal, verts = self.normal, self.vertices - center
+        if normal[2] < 0:
+            normal, verts = -normal, verts[::-1]
+        verts, _ = _align_points_by_normal(normal, verts)
         angles_to_vertices = np.arctan2(verts[:, 1], verts[:, 0])
         np.mod(angles_to_vertices, 2 * np.pi, out=angles_to_vertices)
 
